@@ -15,10 +15,15 @@
    non-overlapping literal occurrences of `sub` in `text`, characters compared
    with `=` or, under re.IGNORECASE, with a per-character relation [ceq]
    (pattern char, text char).  [ceq] is a Section variable: every definition
-   and every theorem is parametric in it.  The executable [run_C16] uses the
-   table regenerated from CPython's `re` (Gen/C16_CaseFold.v). *)
+   and every theorem is parametric in it.  The executable [run_C16] uses
+   [ceq_fast] of Model/C16_Regex.v: the relation that sre's own tables define
+   for every code point (proved equal to [ceq_sre]; the pairs observed on `re`
+   over the harness alphabet, Gen/C16_CaseFold.v, are proved to agree with it).
+   Model/C16_Regex.v also models re.escape, the parser on escaped patterns and
+   the IGNORECASE compilation of a literal, so that what is assumed shrinks to
+   the search loop of `finditer` (leftmost, non-overlapping). *)
 From Coq Require Import ZArith List Bool.
-From PTK Require Import Lib.Sx Lib.Py Model.Document Gen.C16_CaseFold.
+From PTK Require Import Lib.Sx Lib.Py Model.Document Gen.C16_CaseFold Model.C16_Regex.
 Import ListNotations.
 Open Scope Z_scope.
 
@@ -366,6 +371,25 @@ Definition key_step (s : sess) (k : key) : option sess :=
       end in
   match r with Some s' => Some (post s') | None => None end.
 
+(* emacs mode with a READ-ONLY main buffer (load_emacs_search_bindings: "/",
+   "?", "n", "N" under `is_read_only`; `vi_search_direction_reversed` swaps "/"
+   and "?" here too, and PromptSession sets it).  While searching the search
+   field has the focus and it is not read-only: the ordinary bindings apply.
+   [count] n / N = `event.arg` (Escape digit ... n).  Any other key would try
+   to edit the read-only buffer: outside. *)
+Definition key_step_ro (s : sess) (k : key) : option sess :=
+  if vi s then None
+  else if searching s then key_step s k
+  else match k with
+       | KCr => Some (start_search s 1)
+       | KCs => Some (start_search s 0)
+       | KSlash => Some (start_search s 1)
+       | KQuestion => Some (start_search s 0)
+       | Kn c => Some (with_main s (apply_search (main s) (the_state s) false c))
+       | KN c => Some (with_main s (apply_search (main s) (invert (the_state s)) false c))
+       | _ => None
+       end.
+
 (* Two BufferControls that share ONE search field (search_buffer_control given
    to both; hence one SearchState, `BufferControl.search_state` reads it off the
    search control).  [cs] is the session of the focused control (the one a
@@ -393,8 +417,9 @@ Definition preview_other (s : sess2) : doc := bdoc (other s).
 End Search.
 
 (* ---------------------------------------------------------------------- *)
-(* The concrete character relation the executable model runs with: the table
-   regenerated from CPython's re.IGNORECASE for the harness alphabet. *)
+(* The relation observed directly on CPython's re.IGNORECASE over the harness
+   alphabet (the executable model ran with it up to round 5; it is now proved
+   to agree with [ceq_sre] on that alphabet, Proofs/C16_RegexFacts.v). *)
 Fixpoint mem_pair (p t : Z) (l : list (Z * Z)) : bool :=
   match l with
   | [] => false
@@ -424,16 +449,16 @@ Definition queries : list (Z * bool * Z) :=
 Definition run_buffer (b : sbuf) (needle : str) (ic : bool) : sx :=
   L [ L (map (fun q => let '(dir, icp, c) := q in
                        let st := mkss needle dir ic in
-                       L [enc_sres (search ceq_tab b st icp c);
-                          enc_obuf (apply_search ceq_tab b st icp c);
-                          enc_oz (get_search_position ceq_tab b st icp c)]) queries);
-      L [enc_doc (document_for_search ceq_tab b (mkss needle 0 ic));
-         enc_doc (document_for_search ceq_tab b (mkss needle 1 ic))] ].
+                       L [enc_sres (search ceq_fast b st icp c);
+                          enc_obuf (apply_search ceq_fast b st icp c);
+                          enc_oz (get_search_position ceq_fast b st icp c)]) queries);
+      L [enc_doc (document_for_search ceq_fast b (mkss needle 0 ic));
+         enc_doc (document_for_search ceq_fast b (mkss needle 1 ic))] ].
 
 Definition run_document (d : doc) (sub : str) (ic : bool) (count : Z) : sx :=
-  L [sx_opt sx_Z (doc_find ceq_tab d sub false ic count);
-     sx_opt sx_Z (doc_find ceq_tab d sub true ic count);
-     sx_opt sx_Z (doc_find_backwards ceq_tab d sub ic count)].
+  L [sx_opt sx_Z (doc_find ceq_fast d sub false ic count);
+     sx_opt sx_Z (doc_find ceq_fast d sub true ic count);
+     sx_opt sx_Z (doc_find_backwards ceq_fast d sub ic count)].
 
 Definition dec_key (s : sx) : option key :=
   match s with
@@ -461,7 +486,7 @@ Definition dec_key (s : sx) : option key :=
   end.
 
 Definition enc_sess (s : sess) : sx :=
-  let p := preview ceq_tab s in
+  let p := preview ceq_fast s in
   L [A (wi (main s)); A (cur (main s)); sx_list sx_str (wl (main s)); sx_str (field s); A (fcur s);
      sx_bool (searching s); sx_str (ss_text s); A (ss_dir s); sx_str (dtext p); A (dcur p)].
 
@@ -470,11 +495,25 @@ Fixpoint run_keys (s : sess) (ks : list key) : list sx :=
   match ks with
   | [] => []
   | k :: r =>
-      match key_step ceq_tab s k with
+      match key_step ceq_fast s k with
       | Some s' => enc_sess s' :: run_keys s' r
       | None => [A (-2)]
       end
   end.
+
+Fixpoint run_keys_ro (s : sess) (ks : list key) : list sx :=
+  match ks with
+  | [] => []
+  | k :: r =>
+      match key_step_ro ceq_fast s k with
+      | Some s' => enc_sess s' :: run_keys_ro s' r
+      | None => [A (-2)]
+      end
+  end.
+
+(* re.escape(s); the parser on s itself; the parser on re.escape(s) *)
+Definition run_regex (s : str) : sx :=
+  L [sx_str (re_escape s); sx_opt sx_str (parse_literals s); sx_opt sx_str (parse_literals (re_escape s))].
 
 Definition dec_key2 (s : sx) : option key2 :=
   match s with
@@ -491,7 +530,7 @@ Fixpoint run_keys2 (s : sess2) (ks : list key2) : list sx :=
   match ks with
   | [] => []
   | k :: r =>
-      match key_step2 ceq_tab s k with
+      match key_step2 ceq_fast s k with
       | Some s' => enc_sess2 s' :: run_keys2 s' r
       | None => [A (-2)]
       end
@@ -521,6 +560,20 @@ Definition run_C16 (c : sx) : sx :=
       | Some t', Some sub', Some ic' =>
           if (0 <=? cu) && (cu <=? len t') then run_document (mkdoc t' cu) sub' ic' count
           else bad_case
+      | _, _, _ => bad_case
+      end
+  | L [A 5; pat] =>
+      match as_str pat with
+      | Some p => run_regex p
+      | None => bad_case
+      end
+  | L [A 6; A p; A t] =>
+      if (0 <=? p) && (0 <=? t) then L [sx_bool (ceq_fast p t); sx_bool (ceq_fast t p)] else bad_case
+  | L [A 7; L ws; A w; A cu; A ic; L ks] =>
+      match map_opt as_str ws, as_bool (A ic), map_opt dec_key ks with
+      | Some ws', Some ic', Some ks' =>
+          let b := mksbuf ws' w cu in
+          if buf_ok b then L (run_keys_ro (mksess b [] 0 [] 0 ic' false false) ks') else bad_case
       | _, _, _ => bad_case
       end
   | L [A 3; A mode; L ws; A w; A cu; A ic; L ks] =>
